@@ -45,6 +45,7 @@ type Engine struct {
 	ghostFields map[string]string
 	gfields     map[string]*GhostField // pkgPath + " " + name
 	effectAssumptions map[string]bool
+	srcLines    map[string][]string
 	ghostViews  map[string]string
 	presums     map[string]string
 	predDepth   int
